@@ -533,6 +533,142 @@ fn structured_full_blocks(rep: &mut Report, part: usize, parts: usize) {
     }
 }
 
+/// Full-range blocks (every value a dequantiser can deliver, -2048..2047) whose reconstruction comes back
+/// into the sample range at some samples: separable blocks with a near-maximal horizontal (or vertical)
+/// profile - sign pattern aligned with one basis column, random, or all-equal - times a profile in the
+/// other direction that cancels at one line; plus dense random full-range blocks. Judged sample by
+/// sample: the observed residual is clamp(real, -255, 255), so |observed - clamp(reference)| <= 1
+/// wherever |real - reference| <= 1, clipped or not.
+fn extreme_blocks(rep: &mut Report, rng: &mut Rng, n: u64) {
+    let coords = || J::obj().set("property", "C10").set("kind", "extreme");
+    let mut t = [[0f64; 8]; 8]; // t[x][u]
+    for x in 0..8 {
+        for u in 0..8 {
+            let cu = if u == 0 { 0.5f64.sqrt() } else { 1.0 };
+            t[x][u] = 0.5 * cu * ((2 * x + 1) as f64 * u as f64 * std::f64::consts::PI / 16.0).cos();
+        }
+    }
+    let mut cases: Vec<[[i32; 8]; 8]> = vec![];
+    for k in 0..n {
+        let mut c = [[0i32; 8]; 8];
+        if k % 4 == 3 {
+            // dense random full-range block, sometimes with a few rows only
+            let rows = if rng.chance(1, 2) { 8 } else { rng.range(1, 4) as usize };
+            for _ in 0..rows {
+                let v = rng.below(8) as usize;
+                for u in 0..8 {
+                    c[v][u] = rng.range(-2048, 2047) as i32;
+                }
+            }
+            if rng.chance(1, 2) {
+                let mut tr = [[0i32; 8]; 8];
+                for v in 0..8 {
+                    for u in 0..8 {
+                        tr[u][v] = c[v][u];
+                    }
+                }
+                c = tr;
+            }
+            cases.push(c);
+            continue;
+        }
+        // strong profile h (length 8) along one direction
+        let x0 = rng.below(8) as usize;
+        let mode = rng.below(4);
+        let mut h = [0f64; 8];
+        for u in 0..8 {
+            let mag = match rng.below(8) % 5 {
+                0 => 2047,
+                1 => 2048,
+                2 => rng.range(1900, 2047),
+                _ => rng.range(1000, 2047),
+            } as f64;
+            let sign = match mode {
+                0 => t[x0][u].signum(),
+                1 => -t[x0][u].signum(),
+                2 => 1.0,
+                _ => if rng.chance(1, 2) { 1.0 } else { -1.0 },
+            };
+            h[u] = mag * sign;
+        }
+        // weak profile a: a[v0] = 1 and one to three other entries that bring line y0 back to `target / peak`
+        let peak: f64 = (0..8).map(|x| (0..8).map(|u| t[x][u] * h[u]).sum::<f64>().abs()).fold(0.0, f64::max);
+        let v0 = if rng.chance(2, 3) { 0 } else { rng.below(8) as usize };
+        let y0 = rng.below(8) as usize;
+        let target = rng.range(-230, 230) as f64 / peak.max(1.0);
+        let mut a = [0f64; 8];
+        a[v0] = if rng.chance(1, 2) { 1.0 } else { -1.0 };
+        let others: Vec<usize> = (0..8).filter(|v| *v != v0 && t[y0][*v].abs() > 0.15).collect();
+        let n_other = (1 + rng.below(3) as usize).min(others.len());
+        let mut chosen = vec![];
+        while chosen.len() < n_other {
+            let v = *rng.pick(&others);
+            if !chosen.contains(&v) {
+                chosen.push(v);
+            }
+        }
+        // split the amount to cancel among the chosen entries
+        let need = target - t[y0][v0] * a[v0];
+        let mut weights: Vec<f64> = chosen.iter().map(|_| 0.2 + rng.below(100) as f64 / 100.0).collect();
+        let ws: f64 = weights.iter().sum();
+        for w in weights.iter_mut() {
+            *w /= ws;
+        }
+        for (v, w) in chosen.iter().zip(weights.iter()) {
+            a[*v] = need * w / t[y0][*v];
+        }
+        let transpose = rng.chance(1, 2);
+        for v in 0..8 {
+            for u in 0..8 {
+                let val = round_half_away(a[v] * h[u]).clamp(-2048, 2047);
+                if transpose {
+                    c[u][v] = val;
+                } else {
+                    c[v][u] = val;
+                }
+            }
+        }
+        cases.push(c);
+    }
+    for chunk in cases.chunks(256) {
+        let blocks: Vec<DecodedDctBlock> = chunk.iter().map(full_block).collect();
+        let got = match catch(|| real_residuals(&blocks)) {
+            Ok(g) => g,
+            Err(p) => {
+                rep.violation(format!("panic@{}", p.loc), format!("IDCT panicked on full-range blocks: {}", p.msg), coords());
+                return;
+            }
+        };
+        for (i, c) in chunk.iter().enumerate() {
+            let r = reference(c);
+            rep.evaluations += 1;
+            let mut inside = 0u64;
+            let mut peak = 0;
+            for k in 0..64 {
+                let want = r[k / 8][k % 8].clamp(-255, 255);
+                if want.abs() < 255 {
+                    inside += 1;
+                }
+                peak = peak.max((got[i][k / 8][k % 8] - want).abs());
+            }
+            if peak > 1 {
+                rep.violation("extreme-full-block/peak", format!("full-range block {:?}: peak error {} against the double-precision reference (clipped to the observable -255..255)", c, peak), coords());
+                return;
+            }
+            rep.count("extreme_blocks");
+            rep.add("extreme_block_samples_inside_range", inside);
+            if inside > 0 {
+                rep.count("extreme_blocks_with_unclipped_samples");
+            }
+            let big = c.iter().flatten().filter(|v| v.abs() >= 1900).count();
+            if big >= 8 {
+                rep.count("extreme_blocks_with_8_or_more_near_maximal_coefficients");
+            }
+            rep.distinct.insert(crate::util::fnv64(&c.iter().flatten().flat_map(|v| (*v as i16).to_le_bytes()).collect::<Vec<u8>>()));
+        }
+    }
+}
+
 pub fn run(ctx: &Ctx) -> (Report, String) {
     let seeds: Vec<i64> = if ctx.tier == Tier::Thorough { (1..=300).collect() } else { vec![1, 2, 3, 4, 5, 6] };
     let seeds: Vec<i64> = if ctx.scale_pct < 100 { seeds.into_iter().take(1).collect() } else { seeds };
@@ -557,6 +693,7 @@ pub fn run(ctx: &Ctx) -> (Report, String) {
                 let mut rng = Rng::new(ctx.seed ^ 0xC10, i as u64);
                 shape_blocks(rep, &mut rng, n_rand / 8);
                 mixed_sequences(rep, &mut rng, ctx.n(200, 4000));
+                extreme_blocks(rep, &mut rng, ctx.n(4000, 100_000));
                 if i < jobs.len() + 8 {
                     structured_full_blocks(rep, i - jobs.len(), 8);
                 }
@@ -578,6 +715,8 @@ pub fn run(ctx: &Ctx) -> (Report, String) {
         rep.require("cropped_grid_planes_with_blocks_outside", 100);
         rep.require("structured_full_blocks", 30_000);
         rep.require("weak_blocks", 1000);
+        rep.require("extreme_blocks_with_unclipped_samples", 10_000);
+        rep.require("extreme_blocks_with_8_or_more_near_maximal_coefficients", 5_000);
     }
     (rep, rule())
 }
